@@ -214,6 +214,28 @@ class Sem:
         self.Y = X @ self.Y @ X.T + Y
         self.d = X @ self.d + d
 
+    def compose_local(self, M, ix, dloc=None, Yloc=None):
+        """compose with the map that acts as (M, Yloc, dloc) on the quadrature indices ix and as the identity elsewhere
+        (same result as compose(embed(M), embed0(Yloc), embedded dloc), in O(N) instead of O(N^3))"""
+        ix = list(ix)
+        self.X[ix, :] = M @ self.X[ix, :]
+        self.Y[ix, :] = M @ self.Y[ix, :]
+        self.Y[:, ix] = self.Y[:, ix] @ M.T
+        if Yloc is not None:
+            self.Y[np.ix_(ix, ix)] += Yloc
+        self.d[ix] = M @ self.d[ix]
+        if dloc is not None:
+            self.d[ix] += dloc
+
+    def shear(self, v, ix, src):
+        """compose with F = 1 + sum_k v_k |ix_k><src| (controlled displacement from quadrature `src`)"""
+        ix = list(ix)
+        v = np.asarray(v, dtype=float)
+        self.X[ix, :] += np.outer(v, self.X[src, :])
+        self.Y[ix, :] += np.outer(v, self.Y[src, :])
+        self.Y[:, ix] += np.outer(self.Y[:, src], v)
+        self.d[ix] += v * self.d[src]
+
     def observable(self):
         keep = [i for i in range(2 * self.N) if i not in self.drop]
         return self.X[keep, :], self.Y[np.ix_(keep, keep)], self.d[keep], tuple(sorted(self.tags.items()))
@@ -257,27 +279,20 @@ def program_map(cmds, n, hbar=2.0, env=None):
         op, modes, nm = c.op, _cmd_modes(c), name(c.op)
         if nm in GAUSS_GATES:
             S, d, lin = gate_local(op, hbar, env)
-            X = ph.embed(S, modes, N)
-            dd = np.zeros(2 * N)
-            dd[ph.idx(modes, N)] = d
-            for ri, vec in lin.items():
+            for ri in lin:
                 if ri not in latest:
                     raise Unsupported("measured parameter used before measurement")
-                sl = latest[ri]
-                # measured value (hbar units) = s * x_slot(hbar=2)
-                X[np.ix_(ph.idx(modes, N), [sl])] += (vec * s)[:, None]
-            sem.compose(X, np.zeros((2 * N, 2 * N)), dd)
+            sem.compose_local(S, ph.idx(modes, N), d)
+            for ri, vec in lin.items():
+                # measured value (hbar units) = s * x_slot(hbar=2): a controlled displacement from the slot
+                sem.shear(vec * s, ph.idx(modes, N), latest[ri])
         elif nm in GAUSS_CHANNELS:
             Xl, Yl = channel_local(op, env)
-            sem.compose(ph.embed(Xl, modes, N), ph.embed0(Yl, modes, N), np.zeros(2 * N))
+            sem.compose_local(Xl, ph.idx(modes, N), None, Yl)
         elif nm in GAUSS_PREPS:
             mu, V = prep_local(op, hbar, env)
             ix = ph.idx(modes, N)
-            X = np.eye(2 * N)
-            X[ix, ix] = 0
-            dd = np.zeros(2 * N)
-            dd[ix] = mu
-            sem.compose(X, ph.embed0(V, modes, N), dd)
+            sem.compose_local(np.zeros((len(ix), len(ix))), ix, np.asarray(mu, dtype=float), np.asarray(V, dtype=float))
         elif nm in MEASUREMENTS:
             if nm == "MeasureHomodyne" and op.select is None and len(modes) == 1:
                 pass
@@ -285,18 +300,14 @@ def program_map(cmds, n, hbar=2.0, env=None):
                 k = done.get(m, 0)
                 done[m] = k + 1
                 sl = n + slots.index((m, k))
-                X = np.eye(2 * N)
+                ixl = ph.idx([m, sl], N)  # local order (x_m, x_sl, p_m, p_sl)
+                R = np.eye(4)
                 if nm == "MeasureHomodyne":
                     phi = pval(op.p[0], env)
-                    X = ph.embed(ph.rot(-phi), [m], N)  # x_phi -> x
+                    R = ph.embed(ph.rot(-phi), [0], 2)  # x_phi -> x on the measured mode
                 # swap mode m and the (vacuum) slot, then the mode is vacuum
-                P = np.eye(2 * N)
-                a, b = ph.idx([m], N), ph.idx([sl], N)
-                P[a, a] = 0
-                P[b, b] = 0
-                P[a, b] = 1
-                P[b, a] = 1
-                sem.compose(P @ X, np.zeros((2 * N, 2 * N)), np.zeros(2 * N))
+                Pm = np.array([[0, 1, 0, 0], [1, 0, 0, 0], [0, 0, 0, 1], [0, 0, 1, 0]], dtype=float)
+                sem.compose_local(Pm @ R, ixl)
                 sel = None if op.select is None else (op.select if np.ndim(op.select) == 0 else np.asarray(op.select).ravel()[j])
                 tag = (nm, None if sel is None else complex(sel))
                 if nm == "MeasureHomodyne":
